@@ -155,14 +155,21 @@ Definition sep_flags (fl c : Z) : Z := Z.lor fl (c mod 256).
 Inductive wreq := WAny | WM8 | WM16 | WX8 | WX16.
 
 (* "refused exactly under the wrong tracked width" *)
-Definition wrong_width (w : wreq) (fl : Z) : bool :=
+Definition wrong_width_b (w : wreq) (m16 x16 : bool) : bool :=
   match w with
   | WAny => false
-  | WM8 => is_m16 fl
-  | WM16 => negb (is_m16 fl)
-  | WX8 => is_x16 fl
-  | WX16 => negb (is_x16 fl)
+  | WM8 => m16
+  | WM16 => negb m16
+  | WX8 => x16
+  | WX16 => negb x16
   end.
+Definition wrong_width (w : wreq) (fl : Z) : bool := wrong_width_b w (is_m16 fl) (is_x16 fl).
+
+(* the tracked flags after the instruction has been assembled: REP / SEP with operand v *)
+Definition spec_flags_after (mn : string) (v fl : Z) : Z :=
+  if String.eqb mn "REP" then rep_flags fl v
+  else if String.eqb mn "SEP" then sep_flags fl v
+  else fl.
 
 (* ------------------------------------------------------------------ the method-name convention *)
 (* Go parameter types an instruction method may have *)
